@@ -1,7 +1,7 @@
 """C07 — the result does not depend on how an operand is written down or wrapped."""
 from . import relprops, relrun
 LEVEL = 'proof'
-W = {'rect': 0.25, 'oct': 0.35, 'share': 0.1, 'lat': 0.1, 'gp': 0.2, 'boxes': 0.08, 'straddle': 0.15, 'abut': 0.08, 'tjo': 0.08}
+W = {'rect': 0.25, 'oct': 0.35, 'share': 0.1, 'lat': 0.1, 'gp': 0.2, 'boxes': 0.08, 'straddle': 0.25, 'abut': 0.08, 'tjo': 0.08}
 
 
 def run(rep, tier, seed):
